@@ -432,6 +432,64 @@ func c01Aliases(c int64, n int64) []int64 {
 	return out
 }
 
+// ---- every other chunk's proof offered for every challenged index of a 40-chunk file ----
+
+var c01Mid = mkFile(seqBytes(40, 9), 1)
+
+func c01OtherChunkEnum() mc.Enum {
+	ae := c01AliasEnum()
+	e := mc.Enum{Prop: "C01", Name: "C01/other-chunk", Cfg: ae.Cfg, Setup: ae.Setup, ConfirmB: true, ConfB: 1}
+	for g0 := uint64(0); g0 < 2; g0++ {
+		g0 := g0
+		e.Cases = append(e.Cases, mc.Case{Desc: fmt.Sprintf("other-chunk|gas0=%d", g0), Run: func(env world.Env) mc.CaseResult {
+			w := env.W()
+			f := c01Mid
+			cr := mc.CaseResult{Class: "all-challenges-covered", Nontrivial: true}
+			u, p1 := w.A("U").Bech, w.A("P1").Bech
+			start := env.Ctx().BlockHeight()
+			mustOK(env.Deliver(storagetypes.NewMsgPostFile(u, f.merkle, int64(len(f.data)), 0, 0, 1, "{}")), "PostFile")
+			n := len(f.chunks)
+			tested := map[int64]bool{}
+			challenge := int64(0)
+			for round := 0; round < 1500 && len(tested) < n; round++ {
+				if round > 0 && !tested[challenge] {
+					tested[challenge] = true
+					before := w.DumpStore(env.Ctx(), "storage")
+					for x := 0; x < n; x++ {
+						if int64(x) == challenge {
+							continue
+						}
+						item, hl := f.proofFor(x)
+						ok, _ := postProofOK(w, env.Deliver(storagetypes.NewMsgPostProof(p1, f.merkle, u, start, item, hl, challenge)))
+						if ok || !storeEqual(before, w.DumpStore(env.Ctx(), "storage")) {
+							cr.Viols = append(cr.Viols, viol("credit-only-by-valid-proof", "other-chunk-accepted", "file of %d one-byte chunks, prover challenged with chunk %d: the content and hash list of chunk %d, sent with ToProve=%d, were accepted (success=%v)", n, challenge, x, challenge, ok))
+							return cr
+						}
+					}
+				}
+				env.SetBlockGas(g0*100000 + uint64(round))
+				item, hl := f.proofFor(int(challenge))
+				if ok, _ := postProofOK(w, env.Deliver(storagetypes.NewMsgPostProof(p1, f.merkle, u, start, item, hl, challenge))); !ok {
+					cr.Class = "honest-proof-rejected" // not this property's concern (C02 checks that honest proofs are accepted)
+					return cr
+				}
+				pr, _ := w.App.StorageKeeper.GetProof(env.Ctx(), p1, f.merkle, u, start)
+				challenge = pr.ChunkToProve
+				if round%16 == 15 {
+					if bp := env.NextBlock(time.Second); bp != nil {
+						panic(bp.Value)
+					}
+				}
+			}
+			if len(tested) < n-1 {
+				cr.Class = fmt.Sprintf("challenges-covered=%d/%d", len(tested), n)
+			}
+			return cr
+		}})
+	}
+	return e
+}
+
 func c01AliasEnum() mc.Enum {
 	cfg := C01{}.Config()
 	st := cfg.Storage
@@ -483,8 +541,9 @@ func c01AliasEnum() mc.Enum {
 				}
 				env.SetBlockGas(g0*4096 + uint64(round))
 				item, hl := f.proofFor(int(challenge))
-				if ok, emsg := postProofOK(w, env.Deliver(storagetypes.NewMsgPostProof(p1, f.merkle, u, start, item, hl, challenge))); !ok {
-					panic(fmt.Sprintf("harness: honest proof of chunk %d rejected in round %d: %s", challenge, round, emsg))
+				if ok, _ := postProofOK(w, env.Deliver(storagetypes.NewMsgPostProof(p1, f.merkle, u, start, item, hl, challenge))); !ok {
+					cr.Class = "honest-proof-rejected" // not this property's concern (C02 checks that honest proofs are accepted)
+					return cr
 				}
 				pr, found := w.App.StorageKeeper.GetProof(env.Ctx(), p1, f.merkle, u, start)
 				if !found {
@@ -506,6 +565,7 @@ func c01AliasEnum() mc.Enum {
 
 func init() {
 	CaseReplayers["C01/index-aliasing"] = func(r *mc.Run, c string) { r.ReplayCase(c01AliasEnum(), c) }
+	CaseReplayers["C01/other-chunk"] = func(r *mc.Run, c string) { r.ReplayCase(c01OtherChunkEnum(), c) }
 	regScenario(C01{})
 	regScenario(C01{Two: true})
 	Props["C01"] = Prop{Level: "model_checking", Run: func(r *mc.Run, tier string) {
@@ -516,5 +576,7 @@ func init() {
 		r.AddExplore(C01{Two: true}, opts(tier, 8, 12, 40, 600, 60, 500))
 		r.Rules = append(r.Rules, "leaf-name aliasing: a 130-chunk file (chunk size 1); from 8 starting seeds the honest prover proves until the chain challenges a chunk whose index has an alias (index spelled with two more digits), then every alias payload is submitted for the challenged index and must be rejected without any change")
 		r.AddEnum(c01AliasEnum(), workers(), time.Now().Add(10*time.Minute))
+		r.Rules = append(r.Rules, "other-chunk enumeration: a 40-chunk file; for every index the chain challenges the prover with (the honest prover keeps proving until all 40 have come up), the content and hash list of each of the 39 other chunks is submitted for that index and must be rejected without any change")
+		r.AddEnum(c01OtherChunkEnum(), workers(), time.Now().Add(10*time.Minute))
 	}}
 }
